@@ -50,17 +50,43 @@ def _lit(e: ast.AST) -> ast.AST:
     return e
 
 
+_CUR_FN: list = [None]
+SAME_FLAVOUR = {"Path", "PurePath", "PurePosixPath", "PosixPath",
+                "pathlib.Path", "pathlib.PurePath", "pathlib.PurePosixPath",
+                "pathlib.PosixPath"}
+
+
+def subject_ok(e: ast.AST | None) -> bool:
+    """The tested object is the validated path itself (a parameter, a field
+    of self, or Path(<that>)) - not a re-interpretation under another path
+    flavour (PureWindowsPath('/abs').is_absolute() is False)."""
+    fn = _CUR_FN[0]
+    if e is None or fn is None:
+        return True
+    from sa.norm import expand
+    e = expand(fn, e)
+    while isinstance(e, ast.Call) and (dotted(e.func) or "") in SAME_FLAVOUR \
+            and len(e.args) == 1 and not e.keywords:
+        e = e.args[0]
+    root = e
+    while isinstance(root, ast.Attribute):
+        root = root.value
+    return isinstance(root, ast.Name) and (root.id in fn.params() or
+                                           root.id in ("self", "cls"))
+
+
 def path_atom(e: ast.AST) -> str | None:
     """Role of a sub-expression in a path guard."""
     if isinstance(e, ast.Compare) and len(e.ops) == 1:
         l, r = _lit(e.left), _lit(e.comparators[0])
         if isinstance(e.ops[0], (ast.In, ast.NotIn)) and const_str(l) == ".." \
-                and isinstance(r, ast.Attribute) and r.attr == "parts":
+                and isinstance(r, ast.Attribute) and r.attr == "parts" and \
+                subject_ok(r.value):
             return "dotdot" if isinstance(e.ops[0], ast.In) else "no_dotdot"
         for a, b in ((l, r), (r, l)):
             if isinstance(a, ast.Attribute) and a.attr in ("anchor", "root",
                                                            "drive") and \
-                    const_str(b) == "":
+                    const_str(b) == "" and subject_ok(a.value):
                 return "absolute" if isinstance(e.ops[0],
                                                 ast.NotEq) else "relative"
             if isinstance(a, ast.Attribute) and a.attr == "name" and \
@@ -69,7 +95,8 @@ def path_atom(e: ast.AST) -> str | None:
                                                 ast.NotEq) else "name_ok"
     if isinstance(e, ast.Call):
         f = e.func
-        if isinstance(f, ast.Attribute) and f.attr == "is_absolute":
+        if isinstance(f, ast.Attribute) and f.attr == "is_absolute" and \
+                subject_ok(f.value):
             return "absolute"
         if (dotted(f) or "").endswith("path.isabs"):
             return "absolute"
@@ -94,6 +121,7 @@ SCENARIOS = [
 def guard_outcomes(fn: FunctionInfo, stop_at=None) -> list[tuple[str, str, bool, str]]:
     """(scenario, required, ok, detail) for the three path scenarios."""
     out = []
+    _CUR_FN[0] = fn
     for label, vals, required in SCENARIOS:
         v = Valuation(fn, path_atom, vals)
         cfg = CFG(fn, oracle=v.truth)
@@ -185,6 +213,7 @@ def run(ctx: Context, rep) -> None:
     if arg not in init.params():
         raise AnalysisError(f"_DatasetFillerContext.__init__ lost `{arg}`")
     for label, vals, required in SCENARIOS:
+        _CUR_FN[0] = init
         v = Valuation(init, path_atom, vals)
         cfg = CFG(init, oracle=v.truth)
         live = cfg.reachable([cfg.entry], follow=lambda a, b, lab: lab != "exc")
